@@ -19,7 +19,7 @@ What is proved for EVERY configuration record, fuel, recursion limit and token l
   conditions of `Props/C01Ddl.lean` (`printableQ`, `normal`); for `ASSERT` both operands printable; for
   `SET [LOCAL] TIME ZONE e` the value printable and its printed form not beginning with `=` / `TO`; for
   `SET variable = values` see below; NOTHING for the
-  other kinds — the printer's rewrites there (`BEGIN WORK` → `BEGIN TRANSACTION`, `END` → `COMMIT`, dropped noise
+  other kinds (`SET NAMES` included) — the printer's rewrites there (`BEGIN WORK` → `BEGIN TRANSACTION`, `END` → `COMMIT`, dropped noise
   words and `AND NO CHAIN`, `TO a` → `TO SAVEPOINT a`, `RELEASE a` → `RELEASE SAVEPOINT a`, mode commas inserted,
   `SET [LOCAL] CHARACTERISTICS …` → `SET SESSION CHARACTERISTICS …`, `DISCARD TEMPORARY` → `DISCARD TEMP`, keywords
   re-spelled) are all proved to re-parse to the same AST;
@@ -43,10 +43,16 @@ SESSION / LOCAL / HIVEVAR:
 `set_session_modifier_not_fixpoint`: `SET SESSION LOCAL = 1` is accepted (variable `LOCAL`) and prints `SET LOCAL = 1`,
 which is rejected (same answers from the real parser).
 
-Not covered (`fixOk = false`): `SET NAMES`, which is NOT a fixpoint in the real code: the charset /
-collation strings are printed raw — `set_names_not_fixpoint`: `SET NAMES 'a b'` prints `SET NAMES a b`, which is
-rejected, and `SET NAMES 'utf8 COLLATE x'` prints `SET NAMES utf8 COLLATE x`, which re-parses to a DIFFERENT tree (same
-answers from the real parser).
+`SET NAMES charset [COLLATE collation]` needs no side condition (it is a `fixKind` statement, `Lemmas/TclFixMisc.lean`
+`fixMisc_setNames`): `Display` writes a name that is one plain non-keyword word (ASCII letter or `_`, then ASCII letters,
+digits, `_`; not in the keyword table) as it is and every other name as a single-quoted string
+(`escape_single_quote_string`), so whatever token the name was read from — word, quoted word, '…' or "…" string — the
+printed token is ONE unquoted non-keyword word or ONE '…' string with the same text, which `parse_literal_string` reads
+back.  `set_names_fixpoint`: `SET NAMES 'a b'`, `''`, `'select'`, `'utf8 COLLATE x'` (all four were rejected or re-parsed
+to another statement while the names were written raw) print themselves and re-parse to the same AST.  The statement is
+about printed TOKENS, like every theorem here; that the printed text `'…'` lexes back to the string it was made of is
+the business of the lexer / escaping properties (under a dialect with backslash escapes a name that contains a
+backslash does not: `escape_single_quote_string` does not double backslashes).
 -/
 namespace SqlVerif.Props.C01Tcl
 open SqlVerif.Pratt SqlVerif.Query SqlVerif.Dml SqlVerif.Ddl SqlVerif.Tcl SqlVerif.Stmts SqlVerif.Gen
@@ -77,7 +83,7 @@ theorem fixKind_fixOk (s : Tcl.Stmt) (hk : s.fixKind = true) : s.fixOk = true :=
   cases s <;> first | rfl | (simp [Tcl.Stmt.fixKind] at hk)
 
 /-- **no side condition on the input** for the statement kinds without an expression operand (transaction
-control, `SET ROLE`, `SET NAMES DEFAULT`, `SET TRANSACTION` / `SET SESSION CHARACTERISTICS`, `USE`, `DISCARD`,
+control, `SET ROLE`, `SET NAMES …`, `SET TRANSACTION` / `SET SESSION CHARACTERISTICS`, `USE`, `DISCARD`,
 `DEALLOCATE`, `CLOSE`): whatever the tokens, the printed statement re-parses to the normal form -/
 theorem tcl_reparse_fixpoint_tx (c : TCfg) (fuel limit : Nat) (ts : List Tok) (s : Tcl.Stmt) (rest : List Tok)
     (h : Tcl.parseStmt c fuel limit ts = .ok (s, rest)) (hk : s.fixKind = true) :
@@ -208,6 +214,8 @@ def sampleX : List Tok :=
 def sampleT : List Tok :=
   [kw "SET", kw "LOCAL", .sym .LParen, wd "a", cm, wd "b", cm, .sym .RParen, .sym .Eq, .sym .LParen, num "1", cm, .sqs (str "x"),
    .sym .RParen]
+/-- `SET SESSION names "utf8" COLLATE 'a b'` (Generic: `"utf8"` is a quoted word) -/
+def sampleN : List Tok := [kw "SET", kw "SESSION", wd "names", .word (str "utf8") (some 34) none, kw "COLLATE", .sqs (str "a b")]
 /-- `ASSERT a > 0 AS 'm'` -/
 def sampleA : List Tok := [kw "ASSERT", wd "a", .sym .Gt, num "0", kw "AS", .sqs (str "m")]
 /-- `CREATE VIEW v AS SELECT 1` (second fragment) -/
@@ -233,6 +241,8 @@ theorem sampleX_hyps : hyps g sampleX "SET a.b = 1, 'x', c + 2" = some (true, tr
   decide +kernel
 theorem sampleT_hyps : hyps ((TCfg.ofRow dialect_snowflake).withTrailing true) sampleT "SET LOCAL (a, b) = (1, 'x')" =
     some (true, true, false, true, true) := by decide +kernel
+theorem sampleN_hyps : hyps g sampleN "SET NAMES utf8 COLLATE 'a b'" = some (true, true, false, true, true) := by
+  decide +kernel
 theorem sampleA_hyps : hyps g sampleA "ASSERT a > 0 AS 'm'" = some (true, true, true, true, true) := by
   decide +kernel
 theorem sampleV_hyps : hyps g sampleV "CREATE VIEW v AS SELECT 1" = some (true, true, true, true, true) := by
@@ -270,27 +280,44 @@ theorem set_session_modifier_not_fixpoint :
          (match Tcl.parseStmt g 100 50 s.showToks with | .error (.syntax _) => true | _ => false)
      | _ => false) = true := by decide +kernel
 
-/-- **Deviation kept visible — `SET NAMES` is not a fixpoint in the real code** (`Display` writes the charset and
-collation strings raw; same answers from the real parser under MySQL / Generic): `SET NAMES 'a b'` prints
-`SET NAMES a b`, which is rejected; `SET NAMES 'utf8 COLLATE x'` prints `SET NAMES utf8 COLLATE x`, which is accepted
-with a DIFFERENT tree (charset `utf8`, collation `x`); `SET NAMES 'utf8'` prints `SET NAMES utf8`, which re-parses to
-the same AST -/
-theorem set_names_not_fixpoint :
-    (match Tcl.parseStmt my 100 50 [kw "SET", wd "NAMES", .sqs (str "a b")] with
-     | .ok (s, []) => s.showText == some (str "SET NAMES a b") && s.sexp == "(setnames 61.20.62 none)"
-     | _ => false) = true ∧
-    (match Tcl.parseStmt my 100 50 [kw "SET", wd "NAMES", wd "a", wd "b"] with
-     | .ok (_, []) => false
-     | _ => true) = true ∧
+/-- a complete `SET NAMES` statement: it is a `fixKind` statement, prints `text`, and its printed tokens re-parse to
+the normal form, which holds the same AST -/
+def namesFix (c : TCfg) (ts : List Tok) (text : String) : Bool :=
+  match Tcl.parseStmt c 100 50 ts with
+  | .ok (s, []) =>
+    s.fixKind && s.fixOk && s.showText == some (str text) &&
+      (match Tcl.parseStmt c 100 50 s.showToks with
+       | .ok (s', []) => s' == s.norm && s'.sexp == s.sexp
+       | _ => false)
+  | _ => false
+
+/-- **`SET NAMES` is a fixpoint** (instances of `tcl_reparse_fixpoint_tx`; same printed texts from the real
+`to_string()` in stream `tcl`, MySQL / Generic).  The four inputs that were rejected or re-parsed to another statement
+while `Display` wrote the names raw: `SET NAMES 'a b'`, `SET NAMES ''`, `SET NAMES 'select'` print themselves;
+`SET NAMES 'utf8 COLLATE x'` prints itself and keeps its tree (charset `utf8 COLLATE x`, no collation), which is NOT the
+tree of `SET NAMES utf8 COLLATE x`.  Plain names lose their quotes, whatever they were (`'utf8'`, `"utf8"` print `utf8`),
+any other name comes back as a '…' string (`"x y"` prints `'x y'`, `'it's'` prints `'it''s'`), also after `COLLATE`. -/
+theorem set_names_fixpoint :
+    namesFix my [kw "SET", wd "NAMES", .sqs (str "a b")] "SET NAMES 'a b'" = true ∧
+    namesFix my [kw "SET", wd "NAMES", .sqs []] "SET NAMES ''" = true ∧
+    namesFix my [kw "SET", wd "NAMES", .sqs (str "select")] "SET NAMES 'select'" = true ∧
+    namesFix my [kw "SET", wd "NAMES", .sqs (str "utf8 COLLATE x")] "SET NAMES 'utf8 COLLATE x'" = true ∧
     (match Tcl.parseStmt my 100 50 [kw "SET", wd "NAMES", .sqs (str "utf8 COLLATE x")],
            Tcl.parseStmt my 100 50 [kw "SET", wd "NAMES", wd "utf8", kw "COLLATE", wd "x"] with
      | .ok (s, []), .ok (s', []) =>
-       s.showText == some (str "SET NAMES utf8 COLLATE x") && s'.showText == s.showText && s.sexp != s'.sexp
+       s.sexp != s'.sexp && s'.showText == some (str "SET NAMES utf8 COLLATE x") && s.showText != s'.showText
      | _, _ => false) = true ∧
-    (match Tcl.parseStmt my 100 50 [kw "SET", wd "NAMES", .sqs (str "utf8")],
-           Tcl.parseStmt my 100 50 [kw "SET", wd "NAMES", wd "utf8"] with
-     | .ok (s, []), .ok (s', []) => s.showText == some (str "SET NAMES utf8") && s.sexp == s'.sexp
-     | _, _ => false) = true := by decide +kernel
+    namesFix my [kw "SET", wd "NAMES", .sqs (str "utf8")] "SET NAMES utf8" = true ∧
+    namesFix my [kw "SET", wd "NAMES", .dqs (str "utf8")] "SET NAMES utf8" = true ∧
+    namesFix g [kw "SET", wd "NAMES", .word (str "x y") (some 34) none] "SET NAMES 'x y'" = true ∧
+    namesFix my [kw "SET", wd "NAMES", .sqs (str "it's")] "SET NAMES 'it''s'" = true ∧
+    namesFix g [kw "SET", kw "LOCAL", wd "names", wd "utf8mb4", kw "COLLATE", .dqs (str "c d")]
+      "SET NAMES utf8mb4 COLLATE 'c d'" = true := by decide +kernel
+
+/-- non-vacuity of `tcl_reparse_fixpoint_tx` on `SET NAMES 'utf8 COLLATE x'` -/
+example : ∀ s, Tcl.parseStmt my 100 50 [kw "SET", wd "NAMES", .sqs (str "utf8 COLLATE x")] = .ok (s, []) → s.fixKind = true →
+    Tcl.parseStmt my 100 50 s.showToks = .ok (s.norm, []) ∧ s.norm.sexp = s.sexp :=
+  fun s h hk => tcl_reparse_fixpoint_tx my 100 50 _ s [] h hk
 end Examples
 
 /-- The full property (not proved: the statement kinds of the three fragments under `fixOk` only; the rest is
